@@ -124,7 +124,7 @@ def run(ctx: Ctx) -> Result:
     outs = _mem.run_histories(ctx, res, "c15", hists, WHICH, rng, nontrivial=nontrivial)
     for h, r in zip(hists, outs):
         seen = set()
-        for kind, what, where in fifo(h, r):
+        for kind, what, where in fifo(h, r) + _mem.due_overtaken(h, r):
             if kind not in seen:
                 seen.add(kind)
                 res.failures.append(Failure(kind, what, {"history": _mem.strip(h), "where": where}, None))
